@@ -131,6 +131,20 @@ theorem C03_refines_pull_code (d : Defects) (hI : d.ingestIgnoresTombstones = fa
   ⟨pull_refines_join hI hS hA (Or.inr ⟨hfd, hfs⟩) (Or.inr hdist) hzd hzs hnd hns hpk hld hls hsig room,
    (pull_noZombie_rooms hI rights hzd hfd hfs room).1, (pull_noZombie_rooms hI rights hzd hfd hfs room).2.1⟩
 
+open Discret.SyncOrder in
+/-- **C03 (refinement, one pull, the code as it is but for the room summary).** `Defects.asImplemented` consults the
+    deletion log and applies every deletion record of an answer; with the whole history compared (the one switch that
+    still has to be off) a pull of the code's model is the join, for replicas in which rows keep their room, members
+    holding every right and logs that are the logs of the content. -/
+theorem C03_refines_pull_asImplemented_fullHistory (rights : Rights) (hA : AllRights rights) (f : Nat → Nat)
+    (dst src : Replica) (hfd : RoomFn f dst) (hfs : RoomFn f src)
+    (hzd : NoZombie dst) (hzs : NoZombie src) (hnd : IdsNodup dst) (hns : IdsNodup src)
+    (hpk : PkFun (fun x => x ∈ dst.ntombs ∨ x ∈ src.ntombs))
+    (hld : IsLogOf dst.sigs dst.log) (hls : IsLogOf src.sigs src.log) (hsig : SigsDetermine dst src) (room : Nat) :
+    abs (pull { Defects.asImplemented with summaryFirstEntityOnly := false } rights dst src room).dst =
+      join (abs dst) (abs (inRoom src room)) :=
+  pull_refines_join rfl rfl hA (Or.inr ⟨hfd, hfs⟩) (Or.inl rfl) hzd hzs hnd hns hpk hld hls hsig room
+
 /-- the model of the code with #18 repaired and the whole history compared: the only switch of the model that
     `C03_refines_pull_code` needs off and the code has on is the room summary -/
 def Defects.repaired18FullHistory : Defects :=
@@ -229,12 +243,15 @@ def twoRecordsTrace : List Op :=
   [.clock 1000, .write 0 (.new 1 1 0 1 11), .compute 0, .pull 1 0 1, .pull 2 0 1,
    .clock 2000, .write 0 (.del 1 12), .compute 0, .clock 3000, .write 1 (.del 1 13), .compute 1, .settle 1 5]
 
-/-- **C03_breaks_deletionBatchKeyedById** (new). Deletion records of one answer are keyed by row id: of two
-    records of one row only the later is kept, so peers 1 and 2 never store the first one. Quiescent, the
-    deletion records differ. -/
+/-- **C03_breaks_deletionBatchKeyedById** (the code before `findings/C03-deletion-batch-keeps-every-record-v2.patch`;
+    regression witness, replay `corpus/C03/two-deletion-records-one-batch.ops`). Deletion records of one answer were
+    keyed by row id: of two records of one row only the later was kept, so peers 1 and 2 never stored the first one.
+    Quiescent, the deletion records differ. With the answer split into sub-batches they agree. -/
 theorem C03_breaks_deletionBatchKeyedById :
-    let w := World.run Defects.asImplemented (World.init [true, true, true]) twoRecordsTrace
-    recsAt w 0 = [(1, 12), (1, 13)] ∧ recsAt w 1 = [(1, 13)] ∧ recsAt w 2 = [(1, 13)] := by
+    let w := World.run { Defects.asImplemented with deletionBatchKeyedById := true } (World.init [true, true, true]) twoRecordsTrace
+    recsAt w 0 = [(1, 12), (1, 13)] ∧ recsAt w 1 = [(1, 13)] ∧ recsAt w 2 = [(1, 13)] ∧
+    let w' := World.run { Defects.asImplemented with deletionBatchKeyedById := false } (World.init [true, true, true]) twoRecordsTrace
+    recsAt w' 0 = [(1, 12), (1, 13)] ∧ recsAt w' 1 = [(1, 12), (1, 13)] ∧ recsAt w' 2 = [(1, 12), (1, 13)] := by
   decide +kernel
 
 /-- a room with two entities; peer 1 updates a row of the second entity -/
@@ -261,11 +278,12 @@ def deletionOrderB : List Op :=
   [.clock 1000, .write 0 (.new 1 1 0 1 11), .compute 0, .pull 1 0 1, .pull 2 0 1,
    .clock 2000, .write 0 (.del 1 12), .compute 0, .pull 1 0 1, .pull 1 2 1, .settle 1 4]
 
-/-- **C03_breaks_ingestIgnoresTombstones** (#18). The same writes, two pull orders: in one the row is deleted
+/-- **C03_breaks_ingestIgnoresTombstones** (#18, the code before `findings/C11-ingest-consults-deletion-log-v2.patch`;
+    regression witness, replay `corpus/C03/deletion-order-dependent.ops`). The same writes, two pull orders: in one the row is deleted
     everywhere, in the other it is back everywhere — the converged state depends on the order of the pulls. -/
 theorem C03_breaks_ingestIgnoresTombstones :
-    let wa := World.run Defects.asImplemented (World.init [true, true, true]) deletionOrderA
-    let wb := World.run Defects.asImplemented (World.init [true, true, true]) deletionOrderB
+    let wa := World.run { Defects.asImplemented with ingestIgnoresTombstones := true } (World.init [true, true, true]) deletionOrderA
+    let wb := World.run { Defects.asImplemented with ingestIgnoresTombstones := true } (World.init [true, true, true]) deletionOrderB
     rowsAt wa 0 = [] ∧ rowsAt wa 1 = [] ∧ rowsAt wa 2 = [] ∧
     rowsAt wb 0 = [(1, 1000, 11)] ∧ rowsAt wb 1 = [(1, 1000, 11)] ∧ rowsAt wb 2 = [(1, 1000, 11)] ∧
     recsAt wa 0 = recsAt wb 0 := by
